@@ -192,8 +192,10 @@ PROPS["C07"] = dict(
 )
 
 PROPS["C17"] = dict(
-    modules=["Sth.Props.C01", "Sth.Props.C08"],
-    theorems=list(CORE_RL),
+    modules=["Sth.Props.C17"],
+    theorems=["Sth.Life.C17_close_quiescent", "Sth.Life.C17_returned_recorded", "Sth.Life.C17_no_fs_after_close", "Sth.Life.C17_close_idempotent",
+              "Sth.Life.C17_close_waits", "Sth.Life.C17_handshake_before_files", "Sth.Life.C17_no_wait_witness", "Sth.Life.C17_wait_on_witness",
+              "Sth.Life.C17_late_start_witness"],
     runs=[dict(engine="res", quick=96, thorough=5000, nontrivial=["closed-while-cycle-parked", "failopen-idxsize", "failopen-prisize", "failopen-bits+size", "failopen-badjson", "failopen-badprijson", "cycles"])],
     shrink_budget=0,
     rule="real stores with the real background flusher (4 ms) and both collectors (15 ms) over 64/128-byte files: random put/remove "
@@ -222,4 +224,24 @@ PROPS["C09"] = dict(
          "with the new bit size: an open that succeeds must not miss keys. Non-trivial = distinct trace with a re-bucketing / a refused "
          "open / crash images inside the translation.",
     assumptions=["IndexFileSize 0 means 'default' to the new index (the re-bucketed index then uses the default limit): modelled as the code does it"],
+)
+
+PROPS["C10"] = dict(
+    modules=["Sth.Props.C10", "Sth.Props.C01", "Sth.Props.C08"],
+    theorems=["Sth.C10_chunk_concat", "Sth.C10_chunk_shape", "Sth.C10_remap_correct", "Sth.C10_remap_reject", "Sth.C10_remap_total"] + list(CORE_RL),
+    runs=[dict(engine="seq", quick=250, thorough=5000, extra=["-profile", "c10"], nontrivial=["multi-chunk", "legacy-freelist", "legacy-bad-offset"]),
+          dict(engine="crash", quick=16, thorough=500, extra=["-profile", "c10"], nontrivial=["at:upgrade", "at:remap"])],
+    shrink_budget=0,
+    crash_lines=True,
+    rule="the harness writes stores in the legacy formats (version-2 single-file index with stale generations, unversioned single-file "
+         "primary, pending freelist entries with linear offsets, records long gone from the index, entries with offsets beyond the primary) "
+         "from generated maps, and opens them with chunk limits {1,16,100,1024,default} for index and primary; after the upgrading open the "
+         "chunk file sizes and every key's remapped location are compared with the Lean pure functions (chunk, remapOffset), the full "
+         "directory bytes are checked by the Lean fsck, every key is read back against the map, and the model is synchronised from the "
+         "directory so that the ordinary history that follows (puts, removes, flushes, GC, reopen) is compared byte-for-byte again. Second "
+         "run: the crash engine captures the directory at every upgrade/remap point (plus torn chunk files) and reopens each image: the "
+         "conversion must complete with the same contents. Non-trivial = distinct store split into several chunks / with freelist / with "
+         "unmappable entries; crash images at upgrade or remap points.",
+    assumptions=["legacy keys are multihashes with one-byte code and length (what the old versions stored)",
+                 "entries that were already corrupt in the legacy input are the input's corruption: an upgrade that needs no remapping preserves them (they are dropped lazily on access)"],
 )
